@@ -31,6 +31,7 @@ import (
 	"time"
 
 	"github.com/DataDog/datadog-traceroute/common"
+	trlog "github.com/DataDog/datadog-traceroute/log"
 	"github.com/DataDog/datadog-traceroute/icmp"
 	"github.com/DataDog/datadog-traceroute/packets"
 
@@ -478,6 +479,44 @@ type c11Scenario struct {
 	Runs        []c11Run
 	SeeOutgoing bool // every run's capture also sees every outgoing probe
 	Timeout     time.Duration
+	// Yield: a logger is installed (public log.SetLogger) whose every entry point lets a little
+	// virtual time pass, so that the other runs get to execute at each log point of the code under
+	// test — e.g. between building a probe and writing it. Logging must not change any result.
+	Yield bool
+}
+
+// c11YieldLogger / c11QuietLogger: see c11Scenario.Yield. The quiet one behaves like the package's
+// default logger with logging disabled.
+func c11YieldLogger(seed uint64) trlog.Logger {
+	var mu sync.Mutex
+	r := hx.NewRNG(seed)
+	yield := func() {
+		mu.Lock()
+		d := time.Duration(r.Range(1, 40)) * time.Microsecond
+		mu.Unlock()
+		time.Sleep(d)
+	}
+	return trlog.Logger{
+		Tracef:    func(string, ...interface{}) { yield() },
+		Trace:     func(string) { yield() },
+		Infof:     func(string, ...interface{}) { yield() },
+		Debugf:    func(string, ...interface{}) { yield() },
+		Warnf:     func(f string, a ...interface{}) error { yield(); return fmt.Errorf(f, a...) },
+		Errorf:    func(f string, a ...interface{}) error { yield(); return fmt.Errorf(f, a...) },
+		TraceFunc: func(func() string) { yield() },
+	}
+}
+
+func c11QuietLogger() trlog.Logger {
+	return trlog.Logger{
+		Tracef:    func(string, ...interface{}) {},
+		Trace:     func(string) {},
+		Infof:     func(string, ...interface{}) {},
+		Debugf:    func(string, ...interface{}) {},
+		Warnf:     func(f string, a ...interface{}) error { return fmt.Errorf(f, a...) },
+		Errorf:    func(f string, a ...interface{}) error { return fmt.Errorf(f, a...) },
+		TraceFunc: func(func() string) {},
+	}
 }
 
 var c11Local = netip.MustParseAddr("192.0.2.2")
@@ -539,6 +578,17 @@ func (run *c11Run) replyFor(probe []byte) ([]byte, time.Duration, bool) {
 	return h.Form.encode(run.Cfg.flow(), probe, h.From, ttl, seqOfProbe(probe)), h.Delay, true
 }
 
+// c11NoRTT drops the RTT field of every hop token ("ttl:ip:dest:rtt").
+func c11NoRTT(s string) string {
+	f := strings.Fields(s)
+	for i, t := range f {
+		if p := strings.Split(t, ":"); len(p) == 4 {
+			f[i] = strings.Join(p[:3], ":")
+		}
+	}
+	return strings.Join(f, " ")
+}
+
 func c11ResultTokens(res []*common.ProbeResponse, err error) string {
 	if err != nil {
 		return "err:" + classifyErr(err)
@@ -562,6 +612,10 @@ func c11Exec(t *testing.T, sc c11Scenario, only map[int]bool) ([]string, []int) 
 	results := make([]string, n)
 	foreign := make([]int, n)
 	synctest.Test(t, func(t *testing.T) {
+		if sc.Yield {
+			trlog.SetLogger(c11YieldLogger(uint64(len(sc.Runs))*7919 + uint64(len(sc.Name))))
+			defer trlog.SetLogger(c11QuietLogger())
+		}
 		wires := make([]*memWire, n)
 		drivers := make([]common.TracerouteDriver, n)
 		var fmu sync.Mutex
@@ -728,7 +782,7 @@ func c11TTLs(r *hx.RNG) (int, int) {
 
 func c11GenScenario(r *hx.RNG, kind string) c11Scenario {
 	g := c11NewGen(r)
-	sc := c11Scenario{Name: kind, SeeOutgoing: r.Bool(), Timeout: 400*time.Millisecond + 777*time.Microsecond}
+	sc := c11Scenario{Name: kind, SeeOutgoing: r.Bool(), Timeout: 400*time.Millisecond + 777*time.Microsecond, Yield: r.Chance(1, 3)}
 	variants := []string{"icmp4", "udp4", "tcp", "sack"}
 	switch kind {
 	case "mixed":
@@ -893,7 +947,7 @@ func c11ScenarioJSON(sc c11Scenario, shared, solo []string, foreign []int) map[s
 		}
 		runs[i] = m
 	}
-	return map[string]any{"scenario": sc.Name, "see_outgoing": sc.SeeOutgoing, "timeout": sc.Timeout.String(), "poll": "50ms", "send_delay": "10ms", "runs": runs,
+	return map[string]any{"scenario": sc.Name, "see_outgoing": sc.SeeOutgoing, "yield_at_log_points": sc.Yield, "timeout": sc.Timeout.String(), "poll": "50ms", "send_delay": "10ms", "runs": runs,
 		"how": "one synctest bubble; one memWire per run; every reply (and, with see_outgoing, every outgoing probe) is injected into ALL runs' wires; TracerouteParallel (TracerouteSerial for tcp) on the real drivers"}
 }
 
@@ -972,7 +1026,13 @@ func c11Isolation(t *testing.T, rep *hx.Report, orc *hx.Oracle, rng *hx.RNG, env
 			continue
 		}
 		for i := range sc.Runs {
-			if shared[i] == solo[i] {
+			same := shared[i] == solo[i]
+			if sc.Yield {
+				// the yields at the log points shift every instant by some microseconds, differently in
+				// the two executions: the hops (TTL, address, destination mark) must agree, not the ns
+				same = c11NoRTT(shared[i]) == c11NoRTT(solo[i])
+			}
+			if same {
 				continue
 			}
 			replay := c11ScenarioJSON(sc, shared, solo, foreign)
